@@ -1,0 +1,9 @@
+//go:build verif
+
+// Contracts for govc (/verif): C04 helper. Comment-only file.
+
+package crypto
+
+//@ -- Hash.String is hex.EncodeToString(h[:]): a deterministic function of the value, no effects (ASSUMED: external hex encoder).
+//@ assume func (h Hash) String
+//@   pure
